@@ -57,7 +57,7 @@ func (c *Compiler) parsePkgType(t types.Type) (*node, error) {
 	// Prepare and fill up default node.
 	node := &node{
 		typ:  typeBasic,
-		typn: strings.Replace(t.String(), c.pkgDot, "", 1),
+		typn: strings.Replace(t.String(), c.pkgDot, "", -1),
 		ptr:  false,
 	}
 	if n, ok := t.(*types.Named); ok {
@@ -116,7 +116,7 @@ func (c *Compiler) parsePkgType(t types.Type) (*node, error) {
 			}
 			ch.name = f.Name()
 			if ch.ptr {
-				ch.typn = strings.Replace(f.Type().String(), c.pkgDot, "", 1)
+				ch.typn = strings.Replace(f.Type().String(), c.pkgDot, "", -1)
 				ch.typn = strings.Replace(ch.typn, "*", "", 1)
 			}
 			node.chld = append(node.chld, ch)
